@@ -3,6 +3,7 @@ package main
 // Calls (contracts, inlining, externs, builtins), loops, and the per-function driver.
 
 import (
+	"sync"
 	"fmt"
 	"go/constant"
 	"go/token"
@@ -71,6 +72,30 @@ func (ex *Exec) noteComp(comp string, s *Sort) {
 	if _, ok := ex.allComps[comp]; !ok {
 		ex.allComps[comp] = s
 	}
+	compSortsMu.Lock()
+	if _, ok := compSorts[comp]; !ok {
+		compSorts[comp] = s
+	}
+	compSortsMu.Unlock()
+}
+
+// compSorts remembers the sort of every component ever noted by any Exec: modification sets of
+// callees are memoised globally (modMemo), so an Exec can be handed a component name it has not
+// resolved itself (second and later instances of a schema calling the same callee).
+var compSorts = map[string]*Sort{}
+var compSortsMu sync.Mutex
+
+func (ex *Exec) sortOfComp(c string) *Sort {
+	if s := ex.allComps[c]; s != nil {
+		return s
+	}
+	compSortsMu.Lock()
+	s := compSorts[c]
+	compSortsMu.Unlock()
+	if s != nil {
+		ex.allComps[c] = s
+	}
+	return s
 }
 
 var epochCtr int
@@ -93,7 +118,7 @@ func (ex *Exec) havoc(st *State, comps []string, tag string) {
 		}
 	}
 	for _, c := range comps {
-		s := ex.allComps[c]
+		s := ex.sortOfComp(c)
 		if s == nil {
 			ex.fail("havoc of unknown component %s", c)
 		}
